@@ -50,4 +50,428 @@ theorem depth0Bits_normal (d fuel I J : ℕ) (ij : ℕ × ℕ) (xy : ℝ × ℝ)
 example : baseOf 1 4 = 0 ∧ baseOf 4 1 = 3 ∧ baseOf 0 4 = 4 ∧ baseOf 4 0 = 4 ∧ baseOf 3 1 = 7 ∧ baseOf 0 3 = 8 ∧
     baseOf 3 0 = 11 := by decide
 
+/-! ## the real-valued front part: rotation, scaling, truncation -/
+
+theorem r_scale2 (x : ℝ) (k : ℤ) : Num.scale2 x k = x * (2 : ℝ) ^ k := rfl
+theorem r_truncU64 (x : ℝ) : Num.truncU64 x = min ⌊max x 0⌋₊ (2 ^ 64 - 1) := rfl
+theorem r_gt' (x y : ℝ) : Num.gt x y = decide (y < x) := rfl
+
+theorem zpow_thn (d : ℕ) : (2 : ℝ) ^ (timeHalfNside d) = (2 : ℝ) ^ d / 2 := by
+  unfold timeHalfNside
+  cases d with
+  | zero => norm_num
+  | succ k =>
+    have : ((k + 1 : ℕ) : ℤ) - 1 = (k : ℤ) := by push_cast; ring
+    simp only [Nat.succ_pos, gt_iff_lt, if_true, this, zpow_natCast]
+    rw [pow_succ]; ring
+
+/-- rotated and scaled coordinates: `u = (X + Y + 1)·n/2`, `v = (Y − X + 9)·n/2` -/
+noncomputable def uOf (d : ℕ) (X Y : ℝ) : ℝ := (X + Y + 1) * 2 ^ d / 2
+noncomputable def vOf (d : ℕ) (X Y : ℝ) : ℝ := (Y - X + 9) * 2 ^ d / 2
+
+theorem srs_real (d : ℕ) (X Y : ℝ) : shiftRotateScale (α := ℝ) d (X, Y) = (uOf d X Y, vOf d X Y) := by
+  unfold shiftRotateScale uOf vOf
+  simp only [r_scale2, r_ofNat, r_one, zpow_thn]
+  ext <;> simp only <;> push_cast <;> ring
+
+theorem trunc_floor (x : ℝ) (h0 : 0 ≤ x) (h : x < 2 ^ 63) : Num.truncU64 x = ⌊x⌋₊ := by
+  rw [r_truncU64, max_eq_left h0]
+  apply min_eq_left
+  have : ⌊x⌋₊ < 2 ^ 63 := (Nat.floor_lt h0).mpr (by exact_mod_cast h)
+  omega
+
+theorem and_mask (a d : ℕ) (hd : d ≤ 29) : (a &&& (Layer.xyMask d / 2 ^ d)) % 2 ^ 32 = a % 2 ^ d := by
+  rw [← Nat.shiftRight_eq_div_pow, xyMask_shr, Nat.and_two_pow_sub_one_eq_mod]
+  apply Nat.mod_eq_of_lt
+  have h1 : a % 2 ^ d < 2 ^ d := Nat.mod_lt _ (Nat.pos_of_ne_zero (by simp))
+  have h2 : 2 ^ d ≤ 2 ^ 29 := Nat.pow_le_pow_right (by decide) hd
+  omega
+
+/-- the back end over ℝ: floors of `u`, `v`; the base-cell bits come from `depth0_bits` on the quotients by `n`, the
+    in-cell coordinates are the remainders, the offsets the fractional parts -/
+theorem hashBack_real (cfg : Cfg) (d : ℕ) (c : ZocClass) (X Y : ℝ) (hz : Layer.zoc cfg d = some c) (hd : d ≤ 29)
+    (hX0 : 0 ≤ X) (hu0 : 0 ≤ uOf d X Y) (hv0 : 0 ≤ vOf d X Y) (hu6 : uOf d X Y < 6 * 2 ^ d) (hv6 : vOf d X Y < 6 * 2 ^ d) :
+    hashBack (α := ℝ) cfg d (X, Y) =
+      (depth0Bits (α := ℝ) d 3 (⌊uOf d X Y⌋₊ / 2 ^ d) (⌊vOf d X Y⌋₊ / 2 ^ d) (⌊uOf d X Y⌋₊, ⌊vOf d X Y⌋₊)
+          (uOf d X Y, vOf d X Y)).map fun d0 =>
+        (d0 ||| Layer.ij2h cfg c (⌊uOf d X Y⌋₊ % 2 ^ d) (⌊vOf d X Y⌋₊ % 2 ^ d),
+          uOf d X Y - (⌊uOf d X Y⌋₊ : ℝ), vOf d X Y - (⌊vOf d X Y⌋₊ : ℝ)) := by
+  have hp : (2 : ℝ) ^ d ≤ 2 ^ 29 := pow_le_pow_right₀ (by norm_num) hd
+  have hbig : (6 : ℝ) * 2 ^ 29 < 2 ^ 63 := by norm_num
+  have tu := trunc_floor (uOf d X Y) hu0 (by linarith)
+  have tv := trunc_floor (vOf d X Y) hv0 (by linarith)
+  have hpn : 0 < 2 ^ d := Nat.pos_of_ne_zero (by simp)
+  have fu : ⌊uOf d X Y⌋₊ / 2 ^ d < 6 := by
+    rw [Nat.div_lt_iff_lt_mul hpn]
+    have : ⌊uOf d X Y⌋₊ < 6 * 2 ^ d := (Nat.floor_lt hu0).mpr (by push_cast; exact hu6)
+    exact this
+  have fv : ⌊vOf d X Y⌋₊ / 2 ^ d < 6 := by
+    rw [Nat.div_lt_iff_lt_mul hpn]
+    have : ⌊vOf d X Y⌋₊ < 6 * 2 ^ d := (Nat.floor_lt hv0).mpr (by push_cast; exact hv6)
+    exact this
+  have mu : ⌊uOf d X Y⌋₊ % 2 ^ d < 2 ^ d := Nat.mod_lt _ hpn
+  have mv : ⌊vOf d X Y⌋₊ % 2 ^ d < 2 ^ d := Nat.mod_lt _ hpn
+  unfold hashBack
+  simp only [r_ensures, norm8_of_nonneg X hX0, srs_real, tu, tv, hz, Nat.shiftRight_eq_div_pow, and_mask _ d hd,
+    Nat.mod_eq_of_lt (Nat.lt_trans fu (by decide : 6 < 256)), Nat.mod_eq_of_lt (Nat.lt_trans fv (by decide : 6 < 256)),
+    nside_eq, mu, mv, decide_true, Bool.and_self, Bool.not_true, Bool.and_false, Bool.false_eq_true, if_false,
+    r_ofNat]
+  cases depth0Bits (α := ℝ) d 3 (⌊uOf d X Y⌋₊ / 2 ^ d) (⌊vOf d X Y⌋₊ / 2 ^ d) (⌊uOf d X Y⌋₊, ⌊vOf d X Y⌋₊)
+    (uOf d X Y, vOf d X Y) <;> rfl
+
+/-! ## the regular branches `k ∈ {0, 1, 2}` -/
+
+/-- quotients (base-cell square), remainders (in-cell coordinates) and fractional parts (offsets) -/
+noncomputable def hbI (d : ℕ) (X Y : ℝ) : ℕ := ⌊uOf d X Y⌋₊ / 2 ^ d
+noncomputable def hbJ (d : ℕ) (X Y : ℝ) : ℕ := ⌊vOf d X Y⌋₊ / 2 ^ d
+noncomputable def hbi (d : ℕ) (X Y : ℝ) : ℕ := ⌊uOf d X Y⌋₊ % 2 ^ d
+noncomputable def hbj (d : ℕ) (X Y : ℝ) : ℕ := ⌊vOf d X Y⌋₊ % 2 ^ d
+noncomputable def hbdx (d : ℕ) (X Y : ℝ) : ℝ := uOf d X Y - (⌊uOf d X Y⌋₊ : ℝ)
+noncomputable def hbdy (d : ℕ) (X Y : ℝ) : ℝ := vOf d X Y - (⌊vOf d X Y⌋₊ : ℝ)
+
+theorem baseOf_table : ∀ I, I < 6 → ∀ J, J < 6 → 3 ≤ I + J → I + J ≤ 5 → I < J + 5 → J < I + 5 →
+    baseOf I J < 12 ∧ baseOf I J / 4 + (I + J) = 5 ∧
+    I + 4 = J + (2 * (baseOf I J % 4) + (if baseOf I J / 4 = 1 then 0 else 1)) + (if I = 4 ∧ J = 0 then 8 else 0) := by
+  intro I hI J hJ h3 h5 h1 h2
+  interval_cases I <;> interval_cases J <;> first | omega | decide
+
+theorem uv_ranges (d : ℕ) (X Y : ℝ) (hX0 : 0 ≤ X) (hX8 : X < 8) (_hY1 : -2 ≤ Y) (hY2 : Y ≤ 2) :
+    uOf d X Y < 6 * 2 ^ d ∧ vOf d X Y < 6 * 2 ^ d := by
+  have hp := pow_pos' d
+  unfold uOf vOf
+  constructor <;> nlinarith
+
+/-- decomposition `u = n·I + i + dx`, with `i < n`, `0 ≤ dx < 1` -/
+theorem floor_decomp (d : ℕ) (u : ℝ) (h0 : 0 ≤ u) :
+    u = (2 : ℝ) ^ d * ((⌊u⌋₊ / 2 ^ d : ℕ) : ℝ) + ((⌊u⌋₊ % 2 ^ d : ℕ) : ℝ) + (u - (⌊u⌋₊ : ℝ)) ∧
+    0 ≤ u - (⌊u⌋₊ : ℝ) ∧ u - (⌊u⌋₊ : ℝ) < 1 ∧ ⌊u⌋₊ % 2 ^ d < 2 ^ d := by
+  have h := Nat.div_add_mod ⌊u⌋₊ (2 ^ d)
+  have hr : ((2 ^ d * (⌊u⌋₊ / 2 ^ d) + ⌊u⌋₊ % 2 ^ d : ℕ) : ℝ) = (⌊u⌋₊ : ℝ) := by rw [h]
+  push_cast at hr
+  refine ⟨by linarith, by linarith [Nat.floor_le h0], by linarith [Nat.lt_floor_add_one u],
+    Nat.mod_lt _ (Nat.pos_of_ne_zero (by simp))⟩
+
+noncomputable def hbb (d : ℕ) (X Y : ℝ) : ℕ := baseOf (hbI d X Y) (hbJ d X Y)
+/-- `8` for the half `X ≥ 7` of base cell 4 (square `(4, 0)`), else `0` -/
+noncomputable def hbs (d : ℕ) (X Y : ℝ) : ℝ := if hbI d X Y = 4 ∧ hbJ d X Y = 0 then 8 else 0
+
+/-- hypotheses on the plane point shared by the theorems below -/
+structure PlaneDom (X Y : ℝ) : Prop where
+  hX0 : 0 ≤ X
+  hX8 : X < 8
+  hY1 : -2 ≤ Y
+  hY2 : Y ≤ 2
+  hu0 : 0 ≤ X + Y + 1
+  hv0 : 0 ≤ Y - X + 9
+
+theorem PlaneDom.u0 {X Y : ℝ} (h : PlaneDom X Y) (d : ℕ) : 0 ≤ uOf d X Y := by
+  have := h.hu0; unfold uOf; positivity
+theorem PlaneDom.v0 {X Y : ℝ} (h : PlaneDom X Y) (d : ℕ) : 0 ≤ vOf d X Y := by
+  have := h.hv0; unfold vOf; positivity
+
+/-- decomposition of the rotated coordinates and ranges of the pieces -/
+theorem hb_facts (d : ℕ) (X Y : ℝ) (h : PlaneDom X Y) :
+    uOf d X Y = 2 ^ d * (hbI d X Y : ℝ) + (hbi d X Y : ℝ) + hbdx d X Y ∧
+    vOf d X Y = 2 ^ d * (hbJ d X Y : ℝ) + (hbj d X Y : ℝ) + hbdy d X Y ∧
+    0 ≤ hbdx d X Y ∧ hbdx d X Y < 1 ∧ 0 ≤ hbdy d X Y ∧ hbdy d X Y < 1 ∧
+    hbi d X Y < 2 ^ d ∧ hbj d X Y < 2 ^ d ∧ hbI d X Y < 6 ∧ hbJ d X Y < 6 ∧
+    hbI d X Y < hbJ d X Y + 5 ∧ hbJ d X Y < hbI d X Y + 5 := by
+  have hp := pow_pos' d
+  have hu0' := h.u0 d
+  have hv0' := h.v0 d
+  obtain ⟨hu6, hv6⟩ := uv_ranges d X Y h.hX0 h.hX8 h.hY1 h.hY2
+  obtain ⟨eu, dx0, dx1, hi⟩ := floor_decomp d (uOf d X Y) hu0'
+  obtain ⟨ev, dy0, dy1, hj⟩ := floor_decomp d (vOf d X Y) hv0'
+  have hpn : 0 < 2 ^ d := Nat.pos_of_ne_zero (by simp)
+  have fI : hbI d X Y < 6 := by
+    unfold hbI; rw [Nat.div_lt_iff_lt_mul hpn]
+    exact (Nat.floor_lt hu0').mpr (by push_cast; exact hu6)
+  have fJ : hbJ d X Y < 6 := by
+    unfold hbJ; rw [Nat.div_lt_iff_lt_mul hpn]
+    exact (Nat.floor_lt hv0').mpr (by push_cast; exact hv6)
+  refine ⟨eu, ev, dx0, dx1, dy0, dy1, hi, hj, fI, fJ, ?_, ?_⟩
+  all_goals
+    have eu' : uOf d X Y = 2 ^ d * (hbI d X Y : ℝ) + (hbi d X Y : ℝ) + hbdx d X Y := eu
+    have ev' : vOf d X Y = 2 ^ d * (hbJ d X Y : ℝ) + (hbj d X Y : ℝ) + hbdy d X Y := ev
+    have dx0' : 0 ≤ hbdx d X Y := dx0
+    have dx1' : hbdx d X Y < 1 := dx1
+    have dy0' : 0 ≤ hbdy d X Y := dy0
+    have dy1' : hbdy d X Y < 1 := dy1
+    have hi0 : (0 : ℝ) ≤ hbi d X Y := Nat.cast_nonneg _
+    have hj0 : (0 : ℝ) ≤ hbj d X Y := Nat.cast_nonneg _
+    have hi1 : (hbi d X Y : ℝ) ≤ 2 ^ d - 1 := cast_lt_pow hi
+    have hj1 : (hbj d X Y : ℝ) ≤ 2 ^ d - 1 := cast_lt_pow hj
+    have huv : uOf d X Y - vOf d X Y = (X - 4) * 2 ^ d := by unfold uOf vOf; ring
+    have hXN1 : (X - 4) * 2 ^ d < 4 * 2 ^ d := by nlinarith [h.hX8]
+    have hXN2 : -(4 * 2 ^ d) ≤ (X - 4) * 2 ^ d := by nlinarith [h.hX0]
+  · have : ((hbI d X Y : ℝ) - hbJ d X Y) * 2 ^ d < 5 * 2 ^ d := by linarith
+    have : (hbI d X Y : ℝ) - hbJ d X Y < 5 := lt_of_mul_lt_mul_right this hp.le
+    have : (hbI d X Y : ℝ) < ((hbJ d X Y + 5 : ℕ) : ℝ) := by push_cast; linarith
+    exact_mod_cast this
+  · have : ((hbJ d X Y : ℝ) - hbI d X Y) * 2 ^ d < 5 * 2 ^ d := by linarith
+    have : (hbJ d X Y : ℝ) - hbI d X Y < 5 := lt_of_mul_lt_mul_right this hp.le
+    have : (hbJ d X Y : ℝ) < ((hbI d X Y + 5 : ℕ) : ℝ) := by push_cast; linarith
+    exact_mod_cast this
+
+/-- centre of the base cell of a regular square in terms of `(I, J)` -/
+theorem hb_base (d : ℕ) (X Y : ℝ) (h : PlaneDom X Y) (h3 : 3 ≤ hbI d X Y + hbJ d X Y) (h5 : hbI d X Y + hbJ d X Y ≤ 5) :
+    hbb d X Y < 12 ∧ baseY (hbb d X Y) = (hbI d X Y : ℝ) + hbJ d X Y - 4 ∧
+    baseX (hbb d X Y) + hbs d X Y = (hbI d X Y : ℝ) - hbJ d X Y + 4 ∧ (hbs d X Y = 0 ∨ hbs d X Y = 8) := by
+  obtain ⟨_, _, _, _, _, _, _, _, fI, fJ, hIJ1, hIJ2⟩ := hb_facts d X Y h
+  obtain ⟨hb, tY, tX⟩ := baseOf_table _ fI _ fJ h3 h5 hIJ1 hIJ2
+  refine ⟨hb, ?_, ?_, ?_⟩
+  · unfold baseY hbb
+    have : ((baseOf (hbI d X Y) (hbJ d X Y) / 4 + (hbI d X Y + hbJ d X Y) : ℕ) : ℝ) = 5 := by rw [tY]; norm_num
+    push_cast at this
+    linarith
+  · unfold baseX hbb hbs
+    have h := congrArg (fun n : ℕ => (n : ℝ)) tX
+    simp only [Nat.cast_add, Nat.cast_ite] at h
+    push_cast at h ⊢
+    linarith
+  · unfold hbs; split_ifs <;> simp
+
+/-- pure algebra: the point `(dx, dy)` of the cell is the original plane point -/
+theorem coo_recover (N X Y I J i j dx dy bx bY s : ℝ) (hN : 0 < N)
+    (eu : (X + Y + 1) * N / 2 = N * I + i + dx) (ev : (Y - X + 9) * N / 2 = N * J + j + dy)
+    (hbx : bx + s = I - J + 4) (hby : bY = I + J - 4) :
+    bx + (i - j) / N + (dx - dy) / N = X - s ∧ bY + (i + j + 1 - N) / N + (dx + dy - 1) / N = Y := by
+  have hne : N ≠ 0 := ne_of_gt hN
+  constructor
+  · have key : (i - j) + (dx - dy) = ((X - 4) - (I - J)) * N := by linarith
+    rw [add_assoc, ← add_div, key, mul_div_assoc, div_self hne]; linarith
+  · have key : (i + j + 1 - N) + (dx + dy - 1) = ((Y + 5) - (I + J) - 1) * N := by linarith
+    rw [add_assoc, ← add_div, key, mul_div_assoc, div_self hne]; linarith
+
+theorem inDiamond_of (cx cy N x y dx dy : ℝ) (hN : 0 < N) (hx : cx + (dx - dy) / N = x)
+    (hy : cy + (dx + dy - 1) / N = y) (dx0 : 0 ≤ dx) (dx1 : dx ≤ 1) (dy0 : 0 ≤ dy) (dy1 : dy ≤ 1) :
+    InDiamond cx cy (1 / N) x y := by
+  subst hx hy
+  unfold InDiamond
+  rw [add_sub_cancel_left, add_sub_cancel_left, abs_div, abs_div, abs_of_pos hN, ← add_div,
+    div_le_div_iff_of_pos_right hN]
+  exact abs_diamond_unit dx dy dx0 dx1 dy0 dy1
+
+/-- the value returned by the back end in the regular case -/
+theorem hb_hash (cfg : Cfg) (d : ℕ) (c : ZocClass) (X Y : ℝ) (hz : Layer.zoc cfg d = some c) (hd : d ≤ 29)
+    (h : PlaneDom X Y) (h3 : 3 ≤ hbI d X Y + hbJ d X Y) (h5 : hbI d X Y + hbJ d X Y ≤ 5) :
+    hashBack (α := ℝ) cfg d (X, Y) =
+      some ((hbb d X Y <<< (d <<< 1)) ||| Layer.ij2h cfg c (hbi d X Y) (hbj d X Y), hbdx d X Y, hbdy d X Y) := by
+  obtain ⟨hu6, hv6⟩ := uv_ranges d X Y h.hX0 h.hX8 h.hY1 h.hY2
+  rw [hashBack_real cfg d c X Y hz hd h.hX0 (h.u0 d) (h.v0 d) hu6 hv6]
+  have := depth0Bits_normal d 2 (hbI d X Y) (hbJ d X Y) (⌊uOf d X Y⌋₊, ⌊vOf d X Y⌋₊) (uOf d X Y, vOf d X Y) h3 h5
+  unfold hbI hbJ at this
+  rw [this]
+  rfl
+
+/-- **`hash_with_dxdy_plane`, regular case.**  Let `(X, Y)` be a plane point with `0 ≤ X < 8`, `|Y| ≤ 2`, `X + Y + 1 ≥ 0`,
+    `Y − X + 9 ≥ 0` whose rotated coordinates fall in a square `(I, J)` with `3 ≤ I + J ≤ 5` (branches `k = 2, 1, 0` of
+    `depth0_bits`: always the case for a point of a base cell that is not on the north-east/north-west border of a
+    north-cap base cell, see `sum_range_of_inBase`).  Then the back end of `hash_with_dxdy` returns
+    `(b·4^d | ij2h(i, j), dx, dy)` with `b < 12`, `i, j < n`, `dx, dy ∈ [0, 1)`,
+    `dx = (n/2)((Y − Yb) + (X − Xb) + 1) − i`, `dy = (n/2)((Y − Yb) − (X − Xb) + 1) − j` (`Xb` taken `+8` for the half
+    `X ≥ 7` of base cell 4), and the point `(dx, dy)` of the cell `(b, i, j)` is exactly `(X, Y)`:
+    `cooPt d b i j dx dy = (X, Y)`; in particular `(X, Y)` (abscissa modulo 8) lies in the closed diamond of the cell. -/
+theorem hash_back_plane (cfg : Cfg) (d : ℕ) (c : ZocClass) (X Y : ℝ) (hz : Layer.zoc cfg d = some c) (hd : d ≤ 29)
+    (h : PlaneDom X Y) (h3 : 3 ≤ hbI d X Y + hbJ d X Y) (h5 : hbI d X Y + hbJ d X Y ≤ 5) :
+    hashBack (α := ℝ) cfg d (X, Y) =
+      some ((hbb d X Y <<< (d <<< 1)) ||| Layer.ij2h cfg c (hbi d X Y) (hbj d X Y), hbdx d X Y, hbdy d X Y) ∧
+    hbb d X Y < 12 ∧ hbi d X Y < 2 ^ d ∧ hbj d X Y < 2 ^ d ∧
+    0 ≤ hbdx d X Y ∧ hbdx d X Y < 1 ∧ 0 ≤ hbdy d X Y ∧ hbdy d X Y < 1 ∧
+    hbdx d X Y = 2 ^ d / 2 * ((Y - baseY (hbb d X Y)) + (X - (baseX (hbb d X Y) + hbs d X Y)) + 1) - hbi d X Y ∧
+    hbdy d X Y = 2 ^ d / 2 * ((Y - baseY (hbb d X Y)) - (X - (baseX (hbb d X Y) + hbs d X Y)) + 1) - hbj d X Y ∧
+    cooPt d (hbb d X Y) (hbi d X Y) (hbj d X Y) (hbdx d X Y) (hbdy d X Y) = (X, Y) ∧
+    InDiamond (cellCx d (hbb d X Y) (hbi d X Y) (hbj d X Y)) (cellCy d (hbb d X Y) (hbi d X Y) (hbj d X Y)) (1 / 2 ^ d)
+      (X - hbs d X Y) Y := by
+  have hp := pow_pos' d
+  obtain ⟨eu, ev, dx0, dx1, dy0, dy1, hi, hj, fI, fJ, hIJ1, hIJ2⟩ := hb_facts d X Y h
+  obtain ⟨hb, bY, bX, hs⟩ := hb_base d X Y h h3 h5
+  have eu2 : (X + Y + 1) * 2 ^ d / 2 = 2 ^ d * (hbI d X Y : ℝ) + (hbi d X Y : ℝ) + hbdx d X Y := eu
+  have ev2 : (Y - X + 9) * 2 ^ d / 2 = 2 ^ d * (hbJ d X Y : ℝ) + (hbj d X Y : ℝ) + hbdy d X Y := ev
+  obtain ⟨ex', ey'⟩ := coo_recover (2 ^ d) X Y (hbI d X Y) (hbJ d X Y) (hbi d X Y) (hbj d X Y) (hbdx d X Y) (hbdy d X Y)
+    (baseX (hbb d X Y)) (baseY (hbb d X Y)) (hbs d X Y) hp eu2 ev2 bX bY
+  have ex : cellCx d (hbb d X Y) (hbi d X Y) (hbj d X Y) + (hbdx d X Y - hbdy d X Y) / 2 ^ d = X - hbs d X Y := ex'
+  have ey : cellCy d (hbb d X Y) (hbi d X Y) (hbj d X Y) + (hbdx d X Y + hbdy d X Y - 1) / 2 ^ d = Y := ey'
+  refine ⟨hb_hash cfg d c X Y hz hd h h3 h5, hb, hi, hj, dx0, dx1, dy0, dy1, ?_, ?_, ?_, ?_⟩
+  · rw [bY, bX]; linarith
+  · rw [bY, bX]; linarith
+  · unfold cooPt
+    rw [ex, ey]
+    congr 1
+    unfold norm8
+    rcases hs with h0 | h8 <;> [rw [h0]; rw [h8]]
+    · simp [not_lt.mpr h.hX0]
+    · have : X - 8 < 0 := by linarith [h.hX8]
+      simp [this]
+  · exact inDiamond_of _ _ _ _ _ _ _ hp ex ey dx0 dx1.le dy0 dy1.le
+
+/-- **`sph_coo ∘ hash_with_dxdy` in the plane** (regular case): if the returned cell number decodes to the parts
+    `(b, i, j)` it was built from (true for both z-order implementations by C18), `sph_coo` applied to the result of the
+    back end un-projects exactly the original plane point -/
+theorem hash_back_sph_coo (cfg : Cfg) (d : ℕ) (c : ZocClass) (X Y : ℝ) (hz : Layer.zoc cfg d = some c) (hd : d ≤ 29)
+    (h : PlaneDom X Y) (h3 : 3 ≤ hbI d X Y + hbJ d X Y) (h5 : hbI d X Y + hbJ d X Y ≤ 5)
+    (hash : ℕ) (dx dy : ℝ) (hres : hashBack (α := ℝ) cfg d (X, Y) = some (hash, dx, dy)) (hh : hash < Layer.nHash d)
+    (hdec : Layer.decodeHash cfg d hash = some ⟨hbb d X Y, hbi d X Y, hbj d X Y⟩) :
+    sphCoo (α := ℝ) cfg d hash dx dy = some (unprojT X Y) ∧ unproj X Y = some (unprojT X Y) := by
+  obtain ⟨hval, hb, hi, hj, dx0, dx1, dy0, dy1, _, _, hcoo, _⟩ := hash_back_plane cfg d c X Y hz hd h h3 h5
+  rw [hval] at hres
+  have e := Option.some.inj hres
+  have e1 : dx = hbdx d X Y := (congrArg (fun t => t.2.1) e).symm
+  have e2 : dy = hbdy d X Y := (congrArg (fun t => t.2.2) e).symm
+  subst e1 e2
+  refine ⟨?_, unproj_eq X Y h.hY1 h.hY2⟩
+  rw [(sph_coo_plane cfg d hash _ _ _ _ _ hh hdec hb hi hj dx0 dx1 dy0 dy1).1, hcoo]
+
+/-! ## which plane points reach which branch of `depth0_bits` -/
+
+/-- the unit square `[I, I+1] × [J, J+1]` of the rotated plane `(U, V) = ((X+Y+1)/2, (Y−X+9)/2)` occupied by base cell `b` -/
+def sqOf (b : ℕ) : ℕ × ℕ := if b < 4 then (b + 1, 4 - b) else if b < 8 then (b - 4, 8 - b) else (b - 8, 11 - b)
+
+theorem sqOf_table (b : ℕ) (hb : b < 12) :
+    baseOf (sqOf b).1 (sqOf b).2 = b ∧ (sqOf b).1 + (sqOf b).2 + b / 4 = 5 ∧
+    (sqOf b).1 + 4 = (sqOf b).2 + (2 * (b % 4) + (if b / 4 = 1 then 0 else 1)) := by
+  interval_cases b <;> decide
+
+theorem base_center_sq (b : ℕ) (hb : b < 12) :
+    baseX b = ((sqOf b).1 : ℝ) - (sqOf b).2 + 4 ∧ baseY b = ((sqOf b).1 : ℝ) + (sqOf b).2 - 4 := by
+  obtain ⟨_, t1, t2⟩ := sqOf_table b hb
+  unfold baseX baseY
+  have h1 := congrArg (fun n : ℕ => (n : ℝ)) t1
+  have h2 := congrArg (fun n : ℕ => (n : ℝ)) t2
+  simp only [Nat.cast_add] at h1 h2
+  constructor
+  · push_cast at h2 ⊢; linarith
+  · push_cast at h1 ⊢; linarith
+
+theorem l1_le_one (a b : ℝ) (h : |a| + |b| ≤ 1) : (-1 ≤ a + b ∧ a + b ≤ 1) ∧ (-1 ≤ b - a ∧ b - a ≤ 1) := by
+  rcases abs_cases a with ⟨e1, _⟩ | ⟨e1, _⟩ <;> rcases abs_cases b with ⟨e2, _⟩ | ⟨e2, _⟩ <;>
+    rw [e1, e2] at h <;> refine ⟨⟨?_, ?_⟩, ?_, ?_⟩ <;> linarith
+
+/-- a point of the closed diamond of centre `(I − J + 4, I + J − 4)` has its scaled rotated coordinates in the closed
+    square `[nI, n(I+1)] × [nJ, n(J+1)]` -/
+theorem sq_of_diamond (d : ℕ) (I0 J0 X Y : ℝ) (h : InDiamond (I0 - J0 + 4) (I0 + J0 - 4) 1 X Y) :
+    (2 ^ d * I0 ≤ uOf d X Y ∧ uOf d X Y ≤ 2 ^ d * (I0 + 1)) ∧ (2 ^ d * J0 ≤ vOf d X Y ∧ vOf d X Y ≤ 2 ^ d * (J0 + 1)) := by
+  have hp := pow_pos' d
+  obtain ⟨⟨a1, a2⟩, b1, b2⟩ := l1_le_one _ _ h
+  unfold uOf vOf
+  refine ⟨⟨?_, ?_⟩, ?_, ?_⟩ <;> nlinarith
+
+theorem floor_sq (d I0 : ℕ) (u : ℝ) (h1 : 2 ^ d * (I0 : ℝ) ≤ u) (h2 : u ≤ 2 ^ d * ((I0 : ℝ) + 1)) :
+    ⌊u⌋₊ / 2 ^ d = I0 + (if u = 2 ^ d * ((I0 : ℝ) + 1) then 1 else 0) := by
+  have hpn : 0 < 2 ^ d := Nat.pos_of_ne_zero (by simp)
+  have hp := pow_pos' d
+  have hu0 : 0 ≤ u := le_trans (by positivity) h1
+  by_cases he : u = 2 ^ d * ((I0 : ℝ) + 1)
+  · simp only [he, if_true]
+    have : (2 : ℝ) ^ d * ((I0 : ℝ) + 1) = ((2 ^ d * (I0 + 1) : ℕ) : ℝ) := by push_cast; ring
+    rw [this, Nat.floor_natCast, Nat.mul_div_cancel_left _ hpn]
+  · simp only [he, if_false, Nat.add_zero]
+    have hlt : u < 2 ^ d * ((I0 : ℝ) + 1) := lt_of_le_of_ne h2 he
+    apply Nat.le_antisymm
+    · have : ⌊u⌋₊ / 2 ^ d < I0 + 1 := by
+        rw [Nat.div_lt_iff_lt_mul hpn]
+        apply (Nat.floor_lt hu0).mpr
+        push_cast; linarith
+      omega
+    · rw [Nat.le_div_iff_mul_le hpn]
+      apply Nat.le_floor
+      push_cast; linarith
+
+/-- **Which branch.**  For a point `(X, Y)`, `0 ≤ X < 8`, of the closed diamond of base cell `b`, the square indices
+    computed by the code are those of `b`, plus one in `I` exactly when the point is on the north-east border
+    `X + Y = Xb + Yb + 1` of `b`, plus one in `J` exactly when it is on the north-west border `Y − X = Yb − Xb + 1`.
+    Hence `I + J = 5 − b/4 + [NE] + [NW]`: the branches `k = 3, 4` (and the final `none`) are never taken for a point
+    of the projection domain in exact arithmetic; `k = −1` is taken exactly on the north-east and north-west borders
+    of the north-cap base cells (pole excluded) and at the north vertex of the equatorial base cells; `k = −2`
+    exactly at the north pole. -/
+theorem inBase_branch (d b : ℕ) (X Y : ℝ) (hb : b < 12) (hX0 : 0 ≤ X) (hX8 : X < 8)
+    (hin : InDiamond (baseX b) (baseY b) 1 X Y) :
+    PlaneDom X Y ∧
+    hbI d X Y = (sqOf b).1 + (if X + Y = baseX b + baseY b + 1 then 1 else 0) ∧
+    hbJ d X Y = (sqOf b).2 + (if Y - X = baseY b - baseX b + 1 then 1 else 0) := by
+  have hp := pow_pos' d
+  obtain ⟨eX, eY⟩ := base_center_sq b hb
+  have hin' := hin
+  rw [eX, eY] at hin'
+  obtain ⟨⟨u1, u2⟩, v1, v2⟩ := sq_of_diamond d _ _ X Y hin'
+  obtain ⟨⟨a1, a2⟩, b1, b2⟩ := l1_le_one _ _ hin'
+  have hI0 : (0 : ℝ) ≤ (sqOf b).1 := Nat.cast_nonneg _
+  have hJ0 : (0 : ℝ) ≤ (sqOf b).2 := Nat.cast_nonneg _
+  have hJ4 : ((sqOf b).1 : ℝ) + (sqOf b).2 ≤ 5 := by
+    have := (sqOf_table b hb).2.1
+    have : (sqOf b).1 + (sqOf b).2 ≤ 5 := by omega
+    exact_mod_cast this
+  have hJ3 : (3 : ℝ) ≤ ((sqOf b).1 : ℝ) + (sqOf b).2 := by
+    have := (sqOf_table b hb).2.1
+    have h4 : b / 4 ≤ 2 := by omega
+    have : 3 ≤ (sqOf b).1 + (sqOf b).2 := by omega
+    exact_mod_cast this
+  refine ⟨⟨hX0, hX8, by linarith, by linarith, by linarith, by linarith⟩, ?_, ?_⟩
+  · unfold hbI
+    rw [floor_sq d _ _ u1 u2]
+    congr 1
+    have : (uOf d X Y = 2 ^ d * (((sqOf b).1 : ℝ) + 1)) ↔ (X + Y = baseX b + baseY b + 1) := by
+      rw [eX, eY]; unfold uOf
+      constructor
+      · intro h
+        have : (X + Y + 1 - 2 * (((sqOf b).1 : ℝ) + 1)) * 2 ^ d = 0 := by linarith
+        rcases mul_eq_zero.mp this with h0 | h0
+        · linarith
+        · exact absurd h0 (ne_of_gt hp)
+      · intro h
+        have : X + Y + 1 = 2 * (((sqOf b).1 : ℝ) + 1) := by linarith
+        rw [this]; ring
+    simp only [this]
+  · unfold hbJ
+    rw [floor_sq d _ _ v1 v2]
+    congr 1
+    have : (vOf d X Y = 2 ^ d * (((sqOf b).2 : ℝ) + 1)) ↔ (Y - X = baseY b - baseX b + 1) := by
+      rw [eX, eY]; unfold vOf
+      constructor
+      · intro h
+        have : (Y - X + 9 - 2 * (((sqOf b).2 : ℝ) + 1)) * 2 ^ d = 0 := by linarith
+        rcases mul_eq_zero.mp this with h0 | h0
+        · linarith
+        · exact absurd h0 (ne_of_gt hp)
+      · intro h
+        have : Y - X + 9 = 2 * (((sqOf b).2 : ℝ) + 1) := by linarith
+        rw [this]; ring
+    simp only [this]
+
+/-- the same for the half `X ≥ 7` of base cell 4 (diamond of centre `(8, 0)`): square `(4, 0)`; its north-east border
+    is outside `X < 8` -/
+theorem inBase4_branch (d : ℕ) (X Y : ℝ) (hX0 : 0 ≤ X) (hX8 : X < 8) (hin : InDiamond 8 0 1 X Y) :
+    PlaneDom X Y ∧ hbI d X Y = 4 ∧ hbJ d X Y = 0 + (if Y - X = -7 then 1 else 0) := by
+  have hp := pow_pos' d
+  have hin' : InDiamond ((4 : ℝ) - 0 + 4) (4 + 0 - 4) 1 X Y := by norm_num; exact hin
+  obtain ⟨⟨u1, u2⟩, v1, v2⟩ := sq_of_diamond d _ _ X Y hin'
+  obtain ⟨⟨a1, a2⟩, b1, b2⟩ := l1_le_one _ _ hin'
+  refine ⟨⟨hX0, hX8, by linarith, by linarith, by linarith, by linarith⟩, ?_, ?_⟩
+  · unfold hbI
+    have := floor_sq d 4 _ (by push_cast; exact u1) (by push_cast; exact u2)
+    rw [this]
+    have hne : ¬ (uOf d X Y = 2 ^ d * (((4 : ℕ) : ℝ) + 1)) := by
+      unfold uOf; intro h
+      have : (X + Y + 1 - 10) * 2 ^ d = 0 := by push_cast at h; linarith
+      rcases mul_eq_zero.mp this with h0 | h0
+      · linarith
+      · exact absurd h0 (ne_of_gt hp)
+    rw [if_neg hne]
+  · unfold hbJ
+    have := floor_sq d 0 _ (by push_cast; exact v1) (by push_cast; exact v2)
+    rw [this]
+    congr 1
+    have : (vOf d X Y = 2 ^ d * (((0 : ℕ) : ℝ) + 1)) ↔ (Y - X = -7) := by
+      unfold vOf
+      constructor
+      · intro h
+        have : (Y - X + 9 - 2) * 2 ^ d = 0 := by push_cast at h; linarith
+        rcases mul_eq_zero.mp this with h0 | h0
+        · linarith
+        · exact absurd h0 (ne_of_gt hp)
+      · intro h
+        have : Y - X + 9 = 2 := by linarith
+        rw [this]; push_cast; ring
+    simp only [this]
+
 end Hpx.CellReal
